@@ -179,6 +179,9 @@ func runSpecN(def *CheckDef, st *Stats, tier string, seed uint64, spec interface
 			if r := recover(); r != nil {
 				if s, ok := r.(sentinel); ok {
 					trouble = "harness sentinel: " + string(s)
+					if s == sentCannotDrive {
+						trouble += " (the code read the random source outside an announced bounded draw, or no raw word drives a draw to the wanted index: the simulator cannot enumerate its choices)"
+					}
 					return
 				}
 				trouble = fmt.Sprintf("harness panic: %v\n%s", r, stack())
